@@ -14,6 +14,9 @@
 package frugal
 
 import (
+	"bytes"
+	"io"
+
 	"github.com/apache/thrift/lib/go/thrift"
 )
 
@@ -86,22 +89,39 @@ func (p *FSimpleServer) Stop() error {
 
 func (p *FSimpleServer) accept(client thrift.TTransport) error {
 	framed := NewTFramedTransport(client)
-	iprot := p.protocolFactory.GetProtocol(framed)
 	oprot := p.protocolFactory.GetProtocol(framed)
 	processor := p.processor
 
 	logger().Debug("frugal: client connection accepted")
 
 	for {
-		err := processor.Process(iprot, oprot)
+		// A request is one frame. The processor is handed exactly that frame
+		// (as by the NATS and HTTP servers), so that a malformed request can
+		// neither read on into the frame of the next request nor leave unread
+		// bytes in front of it.
+		frame, err := readRequestFrame(framed)
 		if err, ok := err.(thrift.TTransportException); ok && err.TypeId() == TRANSPORT_EXCEPTION_END_OF_FILE {
 			return nil
 		} else if err != nil {
+			logger().Printf("error reading request: %s", err)
+			return err
+		}
+		iprot := p.protocolFactory.GetProtocol(&thrift.TMemoryBuffer{Buffer: bytes.NewBuffer(frame)})
+		if err := processor.Process(iprot, oprot); err != nil {
 			logger().Printf("error processing request: %s", err)
 			return err
 		}
-		if err, ok := err.(thrift.TApplicationException); ok && err.TypeId() == APPLICATION_EXCEPTION_UNKNOWN_METHOD {
-			continue
-		}
 	}
+}
+
+// readRequestFrame reads the next frame from the connection in full.
+func readRequestFrame(framed *TFramedTransport) ([]byte, error) {
+	if _, err := framed.Read([]byte{}); err != nil {
+		return nil, err
+	}
+	frame := make([]byte, framed.RemainingBytes())
+	if _, err := io.ReadFull(framed, frame); err != nil {
+		return nil, err
+	}
+	return frame, nil
 }
